@@ -16,6 +16,7 @@ class Ctx:
     s = None            # current Sched
     env = None          # current Env
     installed = False
+    fs = None
     chunker_call_limit = None
     chunker_calls = 0
     tool = None
@@ -286,6 +287,8 @@ def install_once():
         for c in codes:
             mon.set_local_events(tool, c, mon.events.LINE)
     CTX.installed = True
+    from . import fsseam
+    fsseam.install_fs_seam()
 
 
 class _LazyGlobalLock:
